@@ -40,11 +40,12 @@ def main():
     ok_tests = 'All tests passed' in out_t
     rc_d, out_d = sh('bash SEED/demo.sh', wt, timeout=600)
     meta['ran'].append(dict(step='with change', build_tail=out[-200:], tests_pass=ok_tests, demo_rc=rc_d, demo_tail=out_d[-400:]))
-    sh('git stash', wt)
+    # (git stash is shared between worktrees of one repository: revert/re-apply with the saved patch instead)
+    sh('git apply -R SEED/patch.diff', wt)
     sh('make -s -j16 btcdeb btcc tap test-btcdeb 2>&1 | tail -3', wt)
     rc_t2, out_t2 = sh('./test-btcdeb | tail -2', wt)
     rc_d2, out_d2 = sh('bash SEED/demo.sh', wt, timeout=600)
-    sh('git stash pop', wt)
+    sh('git apply SEED/patch.diff', wt)
     sh('make -s -j16 btcdeb btcc tap test-btcdeb 2>&1 | tail -3', wt)
     meta['ran'].append(dict(step='without change', tests_pass='All tests passed' in out_t2, demo_rc=rc_d2, demo_tail=out_d2[-400:]))
     confirmed = ok_tests and rc_d != 0 and rc_d2 == 0
